@@ -57,19 +57,13 @@ def proclock(f):
         # Acquire GATT procedure lock
         self.procedure_start()
 
-        # Call method and unlock GATT procedure lock
-        # if an exception is raised.
+        # Call method and always release the GATT procedure lock, whatever
+        # exception is raised (ATT error, timeout or an exception raised by a
+        # user hook): a lock left held would block every later procedure.
         try:
             result = f(self, *args, **kwargs)
-        except AttError as err:
+        finally:
             self.procedure_stop()
-            raise err
-        except GattTimeoutException as err:
-            self.procedure_stop()
-            raise err
-
-        # Release GATT procedure lock
-        self.procedure_stop()
         return result
     return _wrapper
 
